@@ -41,7 +41,7 @@ Value& ASINExpression::value(Context & ctx) const
     break;
   case Type::INTEGER:
     if (val.isNull())
-      return val;
+      break;
     v = Value(Numeric(std::asin(*(val.integer()))));
     break;
   case Type::NUMERIC:
